@@ -442,6 +442,18 @@ def run(ctx):
         run_long_record(ctx, 46500, 2, ctx.seed)
     if ctx.shard == 1 and ctx.tier == "thorough":
         run_long_record(ctx, 70000, 3, ctx.seed + 1)
+    if ctx.shard == 2 % ctx.nshards:
+        # several sites scored at the same time from a thread pool: wide ensembles (the
+        # conversions and copies of the wrapper then release the interpreter lock)
+        r_ = np.random.default_rng(ctx.seed + 5)
+        sets = []
+        for t_ in range(4):
+            o_ = r_.normal(size=40) + 10.0 * t_
+            e_ = r_.normal(size=(40, 20000)) + 10.0 * t_
+            sets.append((o_, e_))
+        ctx.evaluated()
+        ctx.concurrent("crps", lambda o, e: decomp(crps_fn()(o, e))[0], sets,
+                       {"kind": "concurrent", "what": "crps 4 x [40, 20000]"}, rtol=1e-12)
     rng = ctx.rng(1)
     ncase = 400 if ctx.tier == "quick" else 10000
     for it in range(ncase):
